@@ -2,11 +2,16 @@
   Driver for the C20 streams.
     {"op":"views","report":R} → {"junit": {...}|{"err":"TypeError"}, "stats": {...}, "vars": {...}, "summary": {...}, "inv": bool}
     {"op":"diff","r1":R,"r2":R} → {"added":[…],"removed":[…],"changed":[…],"unchanged":n,"empty":bool}
+    {"op":"short","report":R,"filter":null|{"tests":[path…],"setups":[suite path…],"teardowns":[suite path…]}}
+        (the filter is given by its DECISIONS: the test paths / suite setups / suite teardowns it accepts)
+      → {"short": {"lines":[[name,status]…],"summary":null|{…},"duration_known":bool},
+         "from_suites": {"stats":{"total":…,…},"duration_known":bool}}   -- ReportStats.from_suites(report.get_suites(), report.parallelized)
   Run: `lake env lean --run drivers/C20.lean`
 -/
 import LccModel.Proto
 import LccModel.ProtoReport
 import LccModel.Model.Views
+import LccModel.Model.FilteredViews
 import LccModel.Lemmas.Writer
 open Lean LccModel LccModel.Proto LccModel.ProtoReport LccModel.Report LccModel.Writer LccModel.Views
 
@@ -22,6 +27,22 @@ def encJSuite (s : JSuite) : Json :=
               ("skipped", Json.num s.skipped), ("cases", encList encCase s.cases)]
 
 def encDTest (t : DTest) : Json := Json.arr #[encStr t.path, encStatus t.status]
+
+def encStats (s : Stats) : Json :=
+  Json.mkObj [("total", Json.num s.total), ("passed", Json.num s.passed), ("failed", Json.num s.failed),
+              ("skipped", Json.num s.skipped), ("disabled", Json.num s.disabled), ("enabled", Json.num s.enabled)]
+
+def encSummary (sm : Summary) : Json :=
+  Json.mkObj [("tests", Json.num sm.tests), ("successes", Json.num sm.successes), ("failures", Json.num sm.failures),
+              ("skipped", encOptNat sm.skipped), ("disabled", encOptNat sm.disabled)]
+
+def decFilter (j : Json) : Except String (Option RFilter) := do
+  if j.isNull then return none
+  let tests ← decList decPath (← field j "tests")
+  let setups ← decList decPath (← field j "setups")
+  let teardowns ← decList decPath (← field j "teardowns")
+  pure (some { test := fun p t => tests.contains (p ++ [t.md.name]),
+               phase := fun p td _ => if td then teardowns.contains p else setups.contains p })
 
 def handle (j : Json) : Except String Json := do
   let op ← getStr j "op"
@@ -43,6 +64,18 @@ def handle (j : Json) : Except String Json := do
       ("summary", Json.mkObj [("tests", Json.num sm.tests), ("successes", Json.num sm.successes), ("failures", Json.num sm.failures),
                               ("skipped", encOptNat sm.skipped), ("disabled", encOptNat sm.disabled)]),
       ("inv", Json.bool (reportInv r))])
+  | "short" =>
+    let r ← decReport (← field j "report")
+    let filt ← decFilter (fieldOpt j "filter")
+    let v := shortReport r filt
+    let sh := Json.mkObj [("lines", encList (fun (pt : Path × TestResult) => Json.arr #[encStr pt.2.md.name, encStatus pt.2.result.status]) v.lines),
+                          ("summary", match v.summary with
+                             | some sm => encSummary sm
+                             | none => Json.null),
+                          ("duration_known", Json.bool v.durationKnown)]
+    let fs := Json.mkObj [("stats", encStats (statsFromSuites (view r))),
+                          ("duration_known", Json.bool (fromSuitesDurationKnown (parallelized r) (view r)))]
+    pure (Json.mkObj [("short", sh), ("from_suites", fs)])
   | "diff" =>
     let r1 ← decReport (← field j "r1")
     let r2 ← decReport (← field j "r2")
